@@ -186,7 +186,7 @@ class Exec:
                 return self._skip()
             w.cut(a[0], a[1])
         elif op == 'close':
-            w.app_close(a[0])
+            w.app_close(a[0], a[1] if len(a) > 1 else None)
         elif op == 'reconnect':
             w.app_reconnect(a[0] if a else None)
         elif op == 'lease':
